@@ -40,6 +40,23 @@ structure Zone.Lawful (Z : Zone) : Prop where
   mon_range : ∀ t tm, Z.toLocal t = some tm → 0 ≤ tm.mon ∧ tm.mon ≤ 11
   year_int : ∀ t tm, Z.toLocal t = some tm → INT_MIN ≤ tm.year ∧ tm.year ≤ INT_MAX
 
+/-- A zone described by its offset from UTC at every instant (`off t` seconds east at instant `t`),
+with glibc's `mktime` behaviour for `tm_isdst = -1` written out:
+* `localtime_r` shows the civil time of `t + off t`;
+* overlap / ordinary case: if some instant shows the requested local time, `mktime` returns such an
+  instant (either one when the local time occurs twice);
+* gap case: in any case the result is the requested local time minus an offset the zone uses within
+  two days of the result - so inside a DST gap the result shows the local time moved by the jump.
+Validated against libc for a list of zoneinfo zones on every run of the check (`mkrule` probes). -/
+structure Zone.FollowsOffsets (Z : Zone) (off : Int → Int) : Prop where
+  localtime : ∀ t tm, Z.toLocal t = some tm → tm.sameCivil (tmFromSecs (t + off t))
+  year_int : ∀ t tm, Z.toLocal t = some tm → INT_MIN ≤ tm.year ∧ tm.year ≤ INT_MAX
+  mktime_converts : ∀ tm t, Z.fromLocal tm = some t → ∃ tm', Z.toLocal t = some tm'
+  mktime_hit : ∀ tm t, tm.validCivil → Z.fromLocal tm = some t →
+    (∃ t0, t0 + off t0 = secsFromTm tm) → t + off t = secsFromTm tm
+  mktime_gap : ∀ tm t, tm.validCivil → Z.fromLocal tm = some t →
+    ∃ t', t - 172800 ≤ t' ∧ t' ≤ t + 172800 ∧ t + off t' = secsFromTm tm
+
 /-- libc's zone state matches the environment and no restore has failed (state between API calls) -/
 def World.Consistent (w : World) : Prop := w.libc = w.env ∧ w.restoreFailed = false
 
